@@ -15,7 +15,7 @@ var licenceCmd = &cobra.Command{
 	Aliases: []string{"licenses"},
 	Short:   "Print licence information",
 	Long:    `Print licence information`,
-	Run: func(cmd *cobra.Command, args []string) {
+	RunE: func(cmd *cobra.Command, args []string) (err error) {
 
 		frontmatter := `Jackson B (2022). gofasta: command-line utilities for genomic epidemiology research. Bioinformatics 38 (16), 4033-4035
 https://doi.org/10.1093/bioinformatics/btac424.
@@ -54,7 +54,11 @@ OF THIS SOFTWARE, EVEN IF ADVISED OF THE POSSIBILITY OF SUCH DAMAGE.
 
 ~~~~~~~~~~~~~~~~~~~~~~~~~~~~~~~~~~~~~~~~~~~~~~~~~~~~~~~~~~~~~~~~~~~~~~~~~~~~~~~~`
 
-		fmt.Println(frontmatter)
-		fmt.Println(biogolicence)
+		if _, err = fmt.Println(frontmatter); err != nil {
+			return err
+		}
+		_, err = fmt.Println(biogolicence)
+
+		return err
 	},
 }
